@@ -110,8 +110,10 @@ static inline std::string vgx_summary(const char* path) {
         size_t sp = fn.find(' ');
         if (sp != std::string::npos) fn = fn.substr(0, sp);
       } else {
-        const char* par = strrchr(hash, '(');
-        if (par) {
+        const char* plus = strstr(hash, "+0x");
+        const char* par = plus;
+        while (par && par > hash && *par != '(') par--;
+        if (par && *par == '(') {
           fn = par + 1;
           size_t cl = fn.find(')');
           if (cl != std::string::npos) fn = fn.substr(0, cl);
